@@ -252,6 +252,57 @@ func c17BuildCase(r *vlib.Rand) flowCase {
 	a4, b4 := pk.A4(r.Bytes(4)), pk.A4(r.Bytes(4))
 	a16, b16 := pk.A16(r.Bytes(16)), pk.A16(r.Bytes(16))
 	sp, dp := r.U16(), r.U16()
+	// addresses with structure (a flow must carry them as they are on the wire, whatever they look like): IPv4-mapped,
+	// IPv4-compatible, unspecified, loopback, multicast and all-ones IPv6 addresses, limited broadcast / zero IPv4
+	// addresses, zero / broadcast MACs, ports 0 and 65535 - for either side or both
+	special16 := func() [16]byte {
+		var a [16]byte
+		switch r.Intn(6) {
+		case 0: // ::ffff:a.b.c.d
+			a[10], a[11] = 0xff, 0xff
+			copy(a[12:], r.Bytes(4))
+		case 1: // ::a.b.c.d
+			copy(a[12:], r.Bytes(4))
+		case 2: // ::
+		case 3: // ::1
+			a[15] = 1
+		case 4: // ff02::x
+			a[0], a[1], a[15] = 0xff, 2, r.Byte()
+		default:
+			for i := range a {
+				a[i] = 0xff
+			}
+		}
+		return a
+	}
+	if r.Chance(1, 4) {
+		switch r.Intn(3) {
+		case 0:
+			a16 = special16()
+		case 1:
+			b16 = special16()
+		default:
+			a16, b16 = special16(), special16()
+		}
+		if r.Bool() {
+			a4 = [4]byte{}
+		}
+		if r.Bool() {
+			b4 = [4]byte{255, 255, 255, 255}
+		}
+		if r.Chance(1, 3) {
+			macB = [6]byte{255, 255, 255, 255, 255, 255}
+		}
+		if r.Chance(1, 3) {
+			macA = [6]byte{}
+		}
+		if r.Chance(1, 3) {
+			sp = []uint16{0, 65535, 255, 256}[r.Intn(4)]
+		}
+		if r.Chance(1, 3) {
+			dp = []uint16{0, 65535, 255, 256}[r.Intn(4)]
+		}
+	}
 	if r.Chance(1, 6) { // same endpoints both ways
 		b4, b16, dp, macB = a4, a16, sp, macA
 	}
